@@ -689,6 +689,8 @@ def gen_recipe(rng, depth, loadable=False, in_union=False):
         ms = [sub(in_union=True) for _ in range(n)]
         if rng.random() < 0.5:
             ms.append(gen_literal(rng))
+        if rng.random() < 0.25:
+            ms.append(gen_literal(rng))
         if rng.random() < 0.3:
             ms.append({"r": "none", "sp": rng.random() < 0.5})
         rng.shuffle(ms)
@@ -753,7 +755,7 @@ def rw_duplicate(rng, r):
         m = rng.choice(ms)
         ms.insert(rng.randrange(len(ms) + 1), respell(rng, m))
         return dict(r, ms=ms, style="Union" if r.get("style") == "optional" else r.get("style", "Union"))
-    if r["r"] not in ("bad",):
+    if r["r"] not in ("bad",) and rng.random() < 0.2:
         # X  ->  Union[X, X'] with X' a respelling of X
         return {"r": "union", "style": rng.choice(["Union", "or"]), "ms": [r, respell(rng, r)]}
 
@@ -1447,9 +1449,10 @@ _HIT = object()
 
 
 def collapsed_model_union(real: Real, tp, getter="get_loader"):
-    """Known finding (see known_findings.jsonl): a Union whose members are spellings of ONE model class normalises to
-    that class, the model provider is selected, but the shape is introspected from the raw Union object, so no
-    loader/dumper is produced. True iff `tp` contains such a union and the sub-hint alone reproduces it."""
+    """Known finding (see known_findings.jsonl): two members of a Union that are spellings of ONE model class are
+    merged into one normal form whose `source` is the Union of the spellings; the model provider is selected, but the
+    shape is introspected from that raw Union object, so no loader/dumper is produced. True iff `tp` contains such a
+    union and the two spellings alone (Union[spelling1, spelling2]) reproduce it."""
     from adaptix import ProviderNotFoundError, Retort
     seen = []
 
@@ -1463,23 +1466,30 @@ def collapsed_model_union(real: Real, tp, getter="get_loader"):
             walk(t.__origin__)
     walk(tp)
     for u in seen:
-        try:
-            n = real.norm(u)
-        except Exception:
-            continue
-        if n.origin is Union or not dataclasses.is_dataclass(n.origin):
-            continue
-        member = next((m for m in typing.get_args(u) if typing.get_origin(m) not in (Union, types.UnionType)), None)
-        try:
-            getattr(Retort(), getter)(member)
-        except Exception:
-            continue
-        try:
-            getattr(Retort(), getter)(u)
-        except ProviderNotFoundError:
-            return True
-        except Exception:
-            continue
+        members = [m for m in typing.get_args(u)]
+        norms = []
+        for m in members:
+            try:
+                norms.append(real.norm(m))
+            except Exception:
+                norms.append(None)
+        for i in range(len(members)):
+            for j in range(i + 1, len(members)):
+                if norms[i] is None or norms[j] is None or norms[i] != norms[j]:
+                    continue
+                if not dataclasses.is_dataclass(norms[i].origin):
+                    continue
+                minimal = Union[members[i], members[j]]
+                try:
+                    getattr(Retort(), getter)(members[i])
+                except Exception:
+                    continue
+                try:
+                    getattr(Retort(), getter)(minimal)
+                except ProviderNotFoundError:
+                    return True
+                except Exception:
+                    continue
     return False
 
 
@@ -1598,9 +1608,9 @@ def run(ctx: Ctx):
         except InfraError:
             drv = None
     suite_keys(ctx, real, drv)
-    suite_groups(ctx, real, drv, n_random=ctx.budget(1200, 40000))
-    suite_malformed(ctx, real, drv, n=ctx.budget(150, 3000))
-    suite_retort(ctx, real, n=ctx.budget(150, 2500))
+    suite_groups(ctx, real, drv, n_random=ctx.budget(3000, 60000))
+    suite_malformed(ctx, real, drv, n=ctx.budget(200, 3000))
+    suite_retort(ctx, real, n=ctx.budget(350, 5000))
     ctx.extra["exhaustive"] = False
 
 
